@@ -241,6 +241,10 @@ class C03(Prop):
                         cl.reset_at = len(records[idx])
                         continue
                     family[cl.conn.id] = "shutter" if st["op"] == "get_shutter_state" else "thermostat"
+                    if len(clients) == 1 and r.random() < 0.1:
+                        # the host's clock is corrected between two operations (NTP step): the next operation carries the new reading
+                        traveller.shift(r.choice([-90, -3, -3600, 75]))
+                        acc.count("wall_clock_steps_between_operations")
                     if len(clients) == 1 and cancel_plan is None and r.random() < 0.12:
                         # one reply of this operation (after its login) is useless: truncated, garbage, a lone zero byte; the connection
                         # stays up and the operations after it are exchanges of their own
